@@ -1276,7 +1276,7 @@ func (g *builder) vaultSpec(method, v string) spec {
 		b := &vault.Create{AdminAuthority: auth(1, 0, 1), SuspendAuthority: auth(1, 2)}
 		switch v {
 		case "valid-2of3":
-			b.AdminAuthority = auth(2, 0, 1, 2)
+			b.AdminAuthority = auth(2, 0, 1, 3) // account 2 is suspend-authority only: it may cancel some actions, not admin-only ones
 		case "no-addresses":
 			b.AdminAuthority = vault.Authority{Threshold: 1}
 		case "zero-threshold":
@@ -1408,6 +1408,10 @@ func (g *builder) vaultSpec(method, v string) spec {
 			if r.Bool() {
 				signer = sAcct + 2 // suspend authority only: passes the first check, fails the action-specific one
 			}
+		case "suspend-member":
+			// a member of the suspend authority only cancels a pending admin-only action: passes the
+			// membership check, fails the action-specific authority check
+			signer = sAcct + 2
 		}
 		return spec{body: b, signer: signer, costs: []uint64{5000}}
 	}
